@@ -822,7 +822,17 @@ func (t *transitiveClosure) addExtensions(
 	if !opts.includeKnownExtensions {
 		return nil // nothing to do
 	}
+	explicitMessages := make([]namedDescriptor, 0, len(t.elements))
 	for e, mode := range t.elements {
+		if mode == inclusionModeExplicit {
+			explicitMessages = append(explicitMessages, e)
+		}
+	}
+	sort.Slice(explicitMessages, func(i, j int) bool {
+		return imageIndex.ByDescriptor[explicitMessages[i]].fullName < imageIndex.ByDescriptor[explicitMessages[j]].fullName
+	})
+	for _, e := range explicitMessages {
+		mode := t.elements[e]
 		if mode != inclusionModeExplicit {
 			// we only collect extensions for messages that are directly reachable/referenced.
 			continue
